@@ -243,25 +243,25 @@ func runProperty(pr *property, tier, repo, evPath, knownPath string, seed int, n
 		ev := evidence{
 			PropertyID: pr.ID, Tier: tier, Seed: seed, Level: "other",
 			Coverage: map[string]interface{}{
-				"explanation":            pr.Explanation,
-				"rule":                   pr.RuleText,
-				"obligations":            len(obs),
-				"discharged":             discharged,
-				"evaluations":            len(all.Obs),
-				"distinct_nontrivial":    len(nontrivial),
-				"samples":                samples,
-				"configurations":         cfgNames,
-				"functions_in_package":   nfuncs,
-				"functions_in_scope":     scope,
-				"roles":                  all.Roles,
-				"instance_counts":        all.Counts,
-				"instance_floors":        all.Floors,
-				"notes":                  all.Notes,
-				"known_findings_matched": kh,
+				"explanation":                          pr.Explanation,
+				"rule":                                 pr.RuleText,
+				"obligations":                          len(obs),
+				"discharged":                           discharged,
+				"evaluations":                          len(all.Obs),
+				"distinct_nontrivial":                  len(nontrivial),
+				"samples":                              samples,
+				"configurations":                       cfgNames,
+				"functions_in_package":                 nfuncs,
+				"functions_in_scope":                   scope,
+				"roles":                                all.Roles,
+				"instance_counts":                      all.Counts,
+				"instance_floors":                      all.Floors,
+				"notes":                                all.Notes,
+				"known_findings_matched":               kh,
 				"files_not_in_analysed_configurations": uncovered,
-				"mutation_selftest":      selftest,
-				"checker_cmd":            strings.Join(os.Args, " "),
-				"exhaustive":             false,
+				"mutation_selftest":                    selftest,
+				"checker_cmd":                          strings.Join(os.Args, " "),
+				"exhaustive":                           false,
 			},
 			Assumptions: append(append([]string{}, commonAssumptions...), pr.Assumptions...),
 			WallS:       time.Since(start).Seconds(),
